@@ -182,6 +182,18 @@ def mapInsert (k : Bytes) (v : Bytes) : List (Bytes × Bytes) → List (Bytes ×
 def mapOf (objs : List (Bytes × Bytes)) : List (Bytes × Bytes) :=
   objs.foldl (fun m kv => mapInsert kv.1 kv.2 m) []
 
+/-- `add_object`: the identifier must not be registered yet (`XASSERTM`, reported by abort = `none`) -/
+def cpRegister (m : List (Bytes × Bytes)) (kv : Bytes × Bytes) : Option (List (Bytes × Bytes)) :=
+  if (m.map (·.1)).contains kv.1 then none else some (mapInsert kv.1 kv.2 m)
+
+/-- registering a list of objects one after the other -/
+def cpRegisterAll : List (Bytes × Bytes) → List (Bytes × Bytes) → Option (List (Bytes × Bytes))
+  | m, [] => some m
+  | m, kv :: rest =>
+    match cpRegister m kv with
+    | none => none
+    | some m' => cpRegisterAll m' rest
+
 /-- `_collect_checkpoint_data` after the records were sorted by the map -/
 def cpCollectSorted : List (Bytes × Bytes) → Bytes
   | [] => []
